@@ -125,7 +125,12 @@ def input_dtypes(draw, spec):
 
 @st.composite
 def payloads(draw):
-    mode = draw(st.sampled_from(['ramp', 'bits', 'bits', 'special']))
+    # 'zeros': the whole file is made of zeros - seed % 3 == 0 a +-0 mixture,
+    # 1 all -0.0, 2 all denormals; 'zslab': the ramp with every third slab
+    # of p['slab'] cells (one 2-D field; set by camxspecs) replaced by a +-0
+    # mixture that contains at least one -0.0
+    mode = draw(st.sampled_from(['ramp', 'bits', 'bits', 'special', 'zeros',
+                                 'zslab']))
     seed = draw(st.integers(0, 2 ** 32 - 1))
     over = draw(st.lists(st.tuples(st.integers(0, 4095),
                                    st.sampled_from(SPECIALS)), max_size=3))
@@ -197,6 +202,8 @@ def camxspecs(draw, formats=ALL_FORMATS, max_n=5, max_nz=5, max_steps=4,
         s['nextra'] = draw(st.integers(0, 2 if s['newstyle'] else 1))
         s['nz'] = 1
         s['payload'] = draw(payloads())
+        if s['payload']['mode'] == 'zslab':
+            s['payload']['slab'] = s['nx'] * s['ny']
         return dict(s)
     if fmt == 'lateral_boundary':
         # an edge needs its two corner cells: a boundary file of a domain
@@ -245,6 +252,8 @@ def camxspecs(draw, formats=ALL_FORMATS, max_n=5, max_nz=5, max_steps=4,
                                           'short', '', ' ' * 19 + 'x',
                                           'a  b   c']))
     s['payload'] = draw(payloads())
+    if s['payload']['mode'] == 'zslab':
+        s['payload']['slab'] = s['nx'] * s['ny']
     return dict(s)
 
 
@@ -255,9 +264,44 @@ def cloud_rain_ambiguous(s):
 
 
 # ------------------------------------------------------------------ payload
+def _stream(seed, n):
+    """n pseudo-random '>u4' words from sha256 in counter mode"""
+    chunks = []
+    need = 4 * n
+    i = 0
+    pre = ('z%d:' % int(seed)).encode()
+    while need > 0:
+        chunks.append(hashlib.sha256(pre + str(i).encode()).digest())
+        need -= 32
+        i += 1
+    return np.frombuffer(b''.join(chunks)[:4 * n], dtype='>u4').copy()
+
+
 def expand_payload(p, n):
     """n big-endian float32 values as a '>u4' array of bit patterns"""
     mode = p['mode']
+    if mode in ('zeros', 'zslab'):
+        raw = _stream(p['seed'], n)
+        sign = (raw & np.uint32(1)).astype('>u4') << np.uint32(31)
+        kind = int(p['seed']) % 3 if mode == 'zeros' else 0
+        if mode == 'zeros' and kind == 1:
+            bits = np.full(n, 0x80000000, dtype='>u4')
+        elif mode == 'zeros' and kind == 2:
+            bits = (raw & np.uint32(0x807fffff)) | np.uint32(1)
+        elif mode == 'zeros':
+            bits = sign
+        else:
+            slab = max(1, int(p.get('slab', 1)))
+            bits = np.arange(1, n + 1, dtype='<f4').view('<u4').astype('>u4')
+            for i0 in range(0, n, slab):
+                if (i0 // slab + int(p['seed'])) % 3 == 0:
+                    bits[i0:i0 + slab] = sign[i0:i0 + slab]
+                    bits[i0] = 0x80000000
+        bits = np.array(bits, dtype='>u4')
+        if n:
+            for pos, pat in p.get('over', []):
+                bits[int(pos) % n] = int(pat)
+        return bits
     if mode == 'ramp':
         bits = np.arange(1, n + 1, dtype='<f4').view('<u4').astype('>u4')
     elif mode == 'special':
@@ -457,7 +501,9 @@ def content_of(spec):
              'iedate': yj(ts[-1]), 'etime': float(ts[-1].hour),
              'plon': p['plon'], 'plat': p['plat'], 'iutm': p['iutm'],
              'xorg': p['xorg'], 'yorg': p['yorg'], 'delx': p['delx'],
-             'dely': p['dely'], 'nx': nx, 'ny': ny, 'nz': nz,
+             'dely': p['dely'], 'nx': nx, 'ny': ny,
+             # 2-D emission files carry nz = 0 in the grid header
+             'nz': 0 if spec.get('hdr_nz0') and nz == 1 else nz,
              'iproj': p['iproj'], 'istag': p['istag'], 'tlat1': p['tlat1'],
              'tlat2': p['tlat2'], 'rdum': 0.0, 'cell': [1, 1, nx, ny],
              'species': [s.ljust(10) for s in spec['species']], 'steps': []}
@@ -772,6 +818,67 @@ def input_orders(draw, spec):
         return None
     spec['vorder'] = list(draw(st.permutations(list(range(n)))))
     return spec['vorder']
+
+
+SLICE_FORMATS = ('temperature', 'height_pressure', 'humidity',
+                 'vertical_diffusivity', 'one3d', 'wind', 'cloud_rain')
+SLICE_DIMS = (('TSTEP', 'nsteps'), ('LAY', 'nz'), ('ROW', 'ny'),
+              ('COL', 'nx'))
+
+
+@st.composite
+def input_slices(draw, spec):
+    """window (start, stop) on a non-empty subset of TSTEP/LAY/ROW/COL that
+    the re-read file is cut to before it is written; met formats (their
+    headers carry no grid origin that slicing would have to move)"""
+    if spec['fmt'] not in SLICE_FORMATS or draw(st.integers(0, 2)) != 0:
+        spec['slice'] = None
+        return None
+    out = {}
+    for d, key in SLICE_DIMS:
+        n = spec[key]
+        if n > 1 and draw(st.booleans()):
+            a = draw(st.integers(0, n - 1))
+            b = draw(st.integers(a + 1, n))
+            if (a, b) != (0, n):
+                out[d] = [a, b]
+    spec['slice'] = out or None
+    return spec['slice']
+
+
+def sliced(spec, m=None):
+    """(spec of the sliced file, model restricted to the window)"""
+    sl = spec.get('slice')
+    if not sl:
+        return spec, (m or model_of(spec))
+    m = m or model_of(spec)
+    e = dict(spec)
+    e['slice'] = None
+    for d, key in SLICE_DIMS:
+        if d in sl:
+            e[key] = sl[d][1] - sl[d][0]
+    if 'TSTEP' in sl:
+        t0 = instants(spec)[sl['TSTEP'][0]]
+        e['start'] = [t0.year, t0.timetuple().tm_yday, t0.hour]
+    out = Model()
+    out.attrs = m.attrs
+    out.bits = m.bits
+    for d, n in m.dims.items():
+        out.dims[d] = (sl[d][1] - sl[d][0]) if d in sl else n
+    for name, (dims, arr) in m.vars.items():
+        idx = tuple(slice(*sl[d]) if d in sl else slice(None) for d in dims)
+        out.vars[name] = (dims, arr[idx])
+    ts = slice(*sl['TSTEP']) if 'TSTEP' in sl else slice(None)
+    out.tflag = m.tflag[ts]
+    out.etflag = m.etflag[ts]
+    return e, out
+
+
+def apply_slice(spec, f):
+    sl = spec.get('slice')
+    if not sl:
+        return f
+    return f.sliceDimensions(**{d: slice(a, b) for d, (a, b) in sl.items()})
 
 
 def bystander_spec(spec):
